@@ -6,4 +6,3 @@ import TRV.Model.EngineLTS
 import TRV.Spec.Engine
 import TRV.Proofs.Engine
 import TRV.Proofs.EngineLTS
-import TRV.Props.All
